@@ -132,6 +132,8 @@ let () =
       vbool (EngineDomain16.wf16_rows (rows tt) (strs structs) (strs protos) (strs msgs) (template16 t)) | _ -> failwith "arity")
 
 let () =
+  register "d07.names_ok_shipped_cs" (function [lines; tt; structs; protos; msgs; a] ->
+      vbool (Parse16.names_ok_shipped_cs (strs lines) (rows tt) (strs structs) (strs protos) (strs msgs) (dict a)) | _ -> failwith "arity");
   register "d07.names_ok_shipped" (function [lines; tt; structs; protos; msgs] ->
       vbool (Parse16.names_ok_shipped (strs lines) (rows tt) (strs structs) (strs protos) (strs msgs)) | _ -> failwith "arity")
 
@@ -168,3 +170,15 @@ let () =
       S (CsRender.cs_file_ref (rows tt) (strs structs) (strs protos) (strs msgs) (dict a)) | _ -> failwith "arity");
   register "cs.file_wf" (function [tt; structs; protos; msgs; a] ->
       vbool (CsRender.cs_file_wf (rows tt) (strs structs) (strs protos) (strs msgs) (dict a)) | _ -> failwith "arity")
+
+(* C13 bridge: the whole shipped TEMPLATEReceiver.cpp / TEMPLATETransmitter.cpp; an interface = [[name; id; size] ...] *)
+let rec pos_of_int13 i =
+  if i = 1 then BinNums.Coq_xH
+  else if i land 1 = 0 then BinNums.Coq_xO (pos_of_int13 (i lsr 1)) else BinNums.Coq_xI (pos_of_int13 (i lsr 1))
+let n_of_int13 i = if i = 0 then BinNums.N0 else BinNums.Npos (pos_of_int13 i)
+let ifc3 v = List.map (fun p -> match lst p with [n; i; z] -> ((str n, n_of_int13 (int_of i)), n_of_int13 (int_of z)) | _ -> failwith "ifc3 entry") (lst v)
+let () =
+  register "p13.rx_ref" (function [structs; protos; i; a] -> S (ProtoRender.rx_ref (strs structs) (strs protos) (ifc3 i) (dict a)) | _ -> failwith "arity");
+  register "p13.tx_ref" (function [structs; protos; i; a] -> S (ProtoRender.tx_ref (strs structs) (strs protos) (ifc3 i) (dict a)) | _ -> failwith "arity");
+  register "p13.rx_wf" (function [structs; protos; i; a] -> vbool (ProtoRender.rx_wf (strs structs) (strs protos) (ifc3 i) (dict a)) | _ -> failwith "arity");
+  register "p13.tx_wf" (function [structs; protos; i; a] -> vbool (ProtoRender.tx_wf (strs structs) (strs protos) (ifc3 i) (dict a)) | _ -> failwith "arity")
